@@ -27,7 +27,7 @@ PROPS = {
         gen_funcs=["calculate_new_target", "select_block_height"], harness="c05",
         assumptions=["as C01", "elapsed time passed to calculate_new_target is non-negative (timestamps increase along validated chains)"]),
     "C03": dict(
-        lean_core=["Props.C03"], lean_code=[], gen_funcs=[], harness="c03",
+        lean_core=["Props.C03", "Props.C03Balance"], lean_code=[], gen_funcs=[], harness="c03",
         assumptions=["immutables.Map behaves as a finite map; iteration order is not observed",
                      "histories: parents before children, distinct ids (WFArrivals)"]),
     "C04": dict(
@@ -53,7 +53,7 @@ PROPS = {
         lean_core=["Props.C13"], lean_code=[], gen_funcs=[], harness="c13",
         assumptions=["_cleanup catches only ValidateTransactionError; other exceptions cannot arise for a pooled transaction and are treated as eviction in the model"]),
     "C12": dict(
-        lean_core=["Props.C13", "Props.C02", "Props.C12"], lean_code=[], gen_funcs=[], harness="c12",
+        lean_core=["Props.C13", "Props.C02", "Props.C12", "Props.C12Reach"], lean_code=[], gen_funcs=[], harness="c12",
         assumptions=["partial: the clock corner head.timestamp >= clock + 30 is the known finding D5",
                      "candidate fits in one block (hsize); head id is not all zeros and its by-height index is stored (true of every state built from well-formed arrivals)"]),
     "C20": dict(
